@@ -2,6 +2,918 @@
 //! bitmap.rs / cblc.rs / ebdt.rs / sbix.rs (BitmapSize::location, index subtable formats 1-5, bitmap_data, glyph_data)
 //! with Model/HandBitmap.lean (`hb.*` driver commands), on generator-based inputs with truncations and
 //! boundary fields; plus the group's own byte-level oracles.
+//!
+//!   hb.list  `BitmapSize::index_subtable_list` (+ `IndexSubtableList::index_subtable_records`)
+//!   hb.sub   `IndexSubtable::read_with_args` + `index_format / image_format / image_data_offset /
+//!            min_byte_range / offset_data`
+//!   hb.loc   `BitmapSize::location` for boundary-dense glyph ids (+ `BitmapLocation::is_empty`)
+//!   hb.data  `Cbdt::data` / `Ebdt::data` (`bitmap_data`, `read_small_metrics`, `read_big_metrics`)
+//!   hb.sbix  `Strike::read` + `Strike::glyph_data`
+//! The `BitmapSize` record is built from 48 bytes, so its fields take values no well-formed table holds;
+//! the offset data is the index subtable list with `lead` bytes in front.  Every call is classified with the
+//! real accessors (`ctx.count`), which shows that every branch of the modelled functions is reached.
 use super::*;
+use font_types::{GlyphId, GlyphId16};
+use read_fonts::tables::bitmap::{BigGlyphMetrics, BitmapContent, BitmapData, BitmapDataFormat, BitmapLocation, BitmapMetrics, BitmapSize, IndexSubtable};
+use read_fonts::tables::cbdt::Cbdt;
+use read_fonts::tables::ebdt::Ebdt;
+use read_fonts::tables::sbix::Strike;
+use read_fonts::{FontData, FontRead, FontReadWithArgs, MinByteRange, ReadError};
 
-pub fn run(_ctx: &mut Ctx) {}
+fn err_str(e: &ReadError) -> String {
+    match e {
+        ReadError::OutOfBounds => "e:OutOfBounds".into(),
+        ReadError::InvalidArrayLen => "e:InvalidArrayLen".into(),
+        ReadError::NullOffset => "e:NullOffset".into(),
+        ReadError::InvalidFormat(f) => format!("e:InvalidFormat({f})"),
+        ReadError::InvalidCollectionIndex(g) => format!("e:InvalidCollectionIndex({g})"),
+        ReadError::MalformedData("expected metrics from location table") => "e:Malformed:metrics".into(),
+        ReadError::MalformedData("unexpected bitmap data format") => "e:Malformed:format".into(),
+        other => format!("e:?{other:?}"),
+    }
+}
+
+fn err_kind(e: &ReadError) -> &'static str {
+    match e {
+        ReadError::OutOfBounds => "OutOfBounds",
+        ReadError::InvalidArrayLen => "InvalidArrayLen",
+        ReadError::NullOffset => "NullOffset",
+        ReadError::InvalidFormat(_) => "InvalidFormat",
+        ReadError::InvalidCollectionIndex(_) => "InvalidCollectionIndex",
+        ReadError::MalformedData(_) => "MalformedData",
+        _ => "other",
+    }
+}
+
+fn big_metrics(m: &[u8; 8]) -> BigGlyphMetrics {
+    FontData::new(m).read_array::<BigGlyphMetrics>(0..8).unwrap()[0]
+}
+
+fn big_bytes(m: &BigGlyphMetrics) -> [u8; 8] {
+    [m.height(), m.width(), m.hori_bearing_x() as u8, m.hori_bearing_y() as u8, m.hori_advance(), m.vert_bearing_x() as u8, m.vert_bearing_y() as u8, m.vert_advance()]
+}
+
+/// the 48 bytes of a `BitmapSize` record
+fn size_rec(p: &SizeP) -> BitmapSize {
+    let mut v = [0u8; 48];
+    v[0..4].copy_from_slice(&p.off.to_be_bytes());
+    v[4..8].copy_from_slice(&p.size.to_be_bytes());
+    v[8..12].copy_from_slice(&p.n.to_be_bytes());
+    v[40..42].copy_from_slice(&p.start.to_be_bytes());
+    v[42..44].copy_from_slice(&p.end.to_be_bytes());
+    v[44] = 12;
+    v[45] = 12;
+    v[46] = p.bd;
+    v[47] = 1;
+    FontData::new(&v).read_array::<BitmapSize>(0..48).unwrap()[0]
+}
+
+#[derive(Clone, Copy, Debug, PartialEq)]
+struct SizeP {
+    off: u32,
+    size: u32,
+    n: u32,
+    start: u16,
+    end: u16,
+    bd: u8,
+}
+
+/// one guarded call: progress for the watchdog, no-panic oracle, correspondence case
+fn ask(ctx: &mut Ctx, req: String, f: impl FnOnce() -> String) {
+    PROGRESS.fetch_add(1, Ordering::Relaxed);
+    match catch(f) {
+        Ok(s) => {
+            ctx.oracle("no-panic", true, String::new, String::new);
+            ctx.case(req, s)
+        }
+        Err(m) => ctx.oracle("no-panic", false, || req.clone(), || m.clone()),
+    }
+}
+
+/// byte variants of a generated input: itself, every prefix, every registered field at boundary values,
+/// random flips
+fn variants(rng: &mut Rng, b: &B, flips: usize) -> Vec<Vec<u8>> {
+    let base = &b.v;
+    let n = base.len();
+    let mut out = vec![base.clone()];
+    for c in 0..n {
+        out.push(base[..c].to_vec());
+    }
+    for (p, w) in &b.fields {
+        let (p, w) = (*p, *w as usize);
+        if p + w > n {
+            continue;
+        }
+        let max = (1u64 << (8 * w as u32)) - 1;
+        let mut cur = 0u64;
+        for i in 0..w {
+            cur = (cur << 8) | base[p + i] as u64;
+        }
+        let rest = (n - p) as u64;
+        let mut vals = vec![0, 1, 2, max - 1, max, max / 2 + 1, n as u64, n as u64 + 1, rest, rest / 2, cur.wrapping_add(1), cur.wrapping_sub(1), cur.wrapping_mul(2), cur.wrapping_add(2)];
+        vals.iter_mut().for_each(|v| *v &= max);
+        vals.sort();
+        vals.dedup();
+        for v in vals {
+            if v == cur {
+                continue;
+            }
+            let mut m = base.clone();
+            for i in 0..w {
+                m[p + i] = (v >> (8 * (w - 1 - i))) as u8;
+            }
+            out.push(m);
+        }
+    }
+    for _ in 0..flips {
+        if n == 0 {
+            break;
+        }
+        let mut m = base.clone();
+        for _ in 0..1 + rng.below(3) {
+            let p = rng.below(n as u64) as usize;
+            m[p] = match rng.below(4) {
+                0 => 0,
+                1 => 0xFF,
+                2 => m[p] ^ (1 << rng.below(8)),
+                _ => rng.next() as u8,
+            };
+        }
+        out.push(m);
+    }
+    out
+}
+
+fn gid_edges(vals: &[u32]) -> Vec<u32> {
+    let mut v: Vec<u64> = vec![0, 1, 0xFFFE, 0xFFFF, 0x10000, 0xFFFF_FFFF];
+    for x in vals {
+        for d in [-1i64, 0, 1] {
+            let y = *x as i64 + d;
+            if (0..=0xFFFF_FFFFi64).contains(&y) {
+                v.push(y as u64);
+            }
+        }
+    }
+    v.sort();
+    v.dedup();
+    v.into_iter().map(|x| x as u32).collect()
+}
+
+// ------------------------------------------------------------------------------------------------
+// hb.loc / hb.list
+
+struct LocCase {
+    od: B,
+    p: SizeP,
+    gids: Vec<u32>,
+}
+
+/// an index subtable list (`lead` bytes in front) with 1..3 records; `style` picks the index formats and the
+/// hostile shape
+fn loc_case(rng: &mut Rng, style: usize) -> LocCase {
+    let lead = rng.below(5) as usize;
+    let n_sub = 1 + (style / 5 + rng.below(2) as usize) % 3;
+    let hostile = style / 5 % 8;
+    let mut list = B::new();
+    list.zeros(8 * n_sub);
+    let mut cur = rng.below(12) as u16;
+    let mut gids: Vec<u32> = vec![];
+    let mut range = (u16::MAX, 0u16);
+    for k in 0..n_sub {
+        let first = cur + rng.below(2) as u16;
+        let count = 1 + rng.below(4) as u16;
+        let last = first + count - 1;
+        cur = last + 1;
+        range = (range.0.min(first), range.1.max(last));
+        gids.extend([first as u32, last as u32]);
+        let fmt = 1 + ((style + k * 2) % 5) as u16;
+        let at = list.len();
+        list.set16(8 * k, first);
+        list.set16(8 * k + 2, last);
+        list.set32(8 * k + 4, at as u32);
+        list.mark(8 * k, 2);
+        list.mark(8 * k + 2, 2);
+        list.mark(8 * k + 4, 4);
+        let imgf = *rng.pick(&[1u16, 2, 5, 6, 7, 8, 9, 17, 18, 19]);
+        let ido = *rng.pick(&[0u32, 4, 100, 0xFFFF_FFFF, 0x8000_0000]);
+        let mut st = B::new();
+        st.f16(fmt).f16(imgf).f32(ido);
+        match fmt {
+            1 | 3 => {
+                let mut off = rng.below(5) as u32;
+                // `count + 1` offsets; hostile 1: one offset fewer (the next subtable's bytes are read instead),
+                // hostile 2: a decreasing pair
+                let entries = if hostile == 1 { count } else { count + 1 };
+                for i in 0..entries {
+                    if fmt == 1 {
+                        st.f32(if hostile == 3 && i == 1 { 0xFFFF_FFFF } else { off });
+                    } else {
+                        st.f16(if hostile == 3 && i == 1 { 0xFFFF } else { off as u16 });
+                    }
+                    if hostile == 2 && i == 0 {
+                        off = off.saturating_sub(1 + rng.below(3) as u32);
+                    } else {
+                        off += rng.below(9) as u32;
+                    }
+                }
+            }
+            2 => {
+                st.f32(*rng.pick(&[0u32, 1, 9, 300, 0xFFFF_FFFF])).bytes(&rng.bytes(8));
+            }
+            4 => {
+                let mut glyphs: Vec<u16> = (first..=last).filter(|g| *g == first || rng.chance(2, 3)).collect();
+                if hostile == 4 {
+                    glyphs.reverse();
+                }
+                if hostile == 5 && glyphs.len() > 1 {
+                    glyphs[1] = glyphs[0];
+                }
+                if hostile == 6 {
+                    glyphs.clear();
+                }
+                st.f32(glyphs.len() as u32);
+                let mut off = rng.below(5) as u16;
+                for g in &glyphs {
+                    st.f16(*g).f16(off);
+                    gids.push(*g as u32);
+                    if hostile == 2 {
+                        off = off.saturating_sub(1);
+                    } else {
+                        off += rng.below(9) as u16;
+                    }
+                }
+                // the extra pair that carries the end offset; its glyph id takes part in the search
+                let sentinel = *rng.pick(&[0u16, 0xFFFF, last, last + 1]);
+                if hostile != 1 {
+                    st.f16(sentinel).f16(off);
+                }
+            }
+            _ => {
+                st.f32(*rng.pick(&[0u32, 1, 9, 300, 0xFFFF_FFFF])).bytes(&rng.bytes(8));
+                let mut glyphs: Vec<u16> = (first..=last).filter(|g| *g == first || rng.chance(2, 3)).collect();
+                if hostile == 4 {
+                    glyphs.reverse();
+                }
+                if hostile == 5 && glyphs.len() > 1 {
+                    glyphs[1] = glyphs[0];
+                }
+                if hostile == 6 {
+                    glyphs.clear();
+                }
+                st.f32(glyphs.len() as u32);
+                for g in &glyphs {
+                    st.f16(*g);
+                    gids.push(*g as u32);
+                }
+            }
+        }
+        list.append(&st);
+    }
+    // a few bytes behind the last subtable (arrays one entry short read into them)
+    list.bytes(&rbytes(rng, 6));
+    if hostile == 7 && n_sub >= 2 {
+        // the second record repeats the range of the first (never reached), the first is a null offset now and then
+        let (f, l) = (u16::from_be_bytes([list.v[0], list.v[1]]), u16::from_be_bytes([list.v[2], list.v[3]]));
+        list.set16(8, f);
+        list.set16(10, l);
+        if rng.chance(1, 2) {
+            list.set32(4, 0);
+        }
+    }
+    let mut od = B::new();
+    od.bytes(&rng.bytes(lead));
+    od.append(&list);
+    let p = SizeP { off: lead as u32, size: list.len() as u32, n: n_sub as u32, start: range.0, end: range.1, bd: *rng.pick(&[1u8, 2, 4, 8, 32, 0, 255]) };
+    gids.extend([p.start as u32, p.end as u32]);
+    LocCase { od, p, gids }
+}
+
+fn loc_str(l: &BitmapLocation) -> String {
+    let m = match &l.metrics {
+        Some(m) => hex(&big_bytes(m)),
+        None => "none".into(),
+    };
+    format!("ok:{}:{}:{}:{}:{}:{}", l.format, l.data_offset, l.data_size, l.bit_depth, m, l.is_empty() as u8)
+}
+
+/// which branch of `location` a call takes, found with the real accessors (a classifier for the branch
+/// distribution; its Ok / Err verdict is compared with the real result by `loc.classifier-agrees`)
+fn classify_loc(size: &BitmapSize, od: FontData, gid: u32) -> (String, bool) {
+    let g = GlyphId::new(gid);
+    if !(size.start_glyph_index()..=size.end_glyph_index()).contains(&g) {
+        return ("size-range".into(), false);
+    }
+    let list = match size.index_subtable_list(od) {
+        Ok(l) => l,
+        Err(e) => return (format!("list-err.{}", err_kind(&e)), false),
+    };
+    for (k, rec) in list.index_subtable_records().iter().enumerate() {
+        let k = k.min(2);
+        let st = match rec.index_subtable(list.offset_data()) {
+            Ok(s) => s,
+            Err(e) => return (format!("sub-err.{}", err_kind(&e)), false),
+        };
+        if !(rec.first_glyph_index()..=rec.last_glyph_index()).contains(&g) {
+            continue;
+        }
+        let ix = (gid - rec.first_glyph_index().to_u32()) as usize;
+        let two = |a: Option<u64>, b: Option<u64>, f: u16| -> (String, bool) {
+            match (a, b) {
+                (None, _) => (format!("f{f}.get0-none"), false),
+                (_, None) => (format!("f{f}.get1-none"), false),
+                (Some(a), Some(b)) if b < a => (format!("f{f}.inverted"), false),
+                (Some(a), Some(b)) if b == a => (format!("f{f}.ok-empty.rec{k}"), true),
+                _ => (format!("f{f}.ok.rec{k}"), true),
+            }
+        };
+        return match &st {
+            IndexSubtable::Format1(t) => two(t.sbit_offsets().get(ix).map(|x| x.get() as u64), t.sbit_offsets().get(ix + 1).map(|x| x.get() as u64), 1),
+            IndexSubtable::Format3(t) => two(t.sbit_offsets().get(ix).map(|x| x.get() as u64), t.sbit_offsets().get(ix + 1).map(|x| x.get() as u64), 3),
+            IndexSubtable::Format2(_) => (format!("f2.ok.rec{k}"), true),
+            IndexSubtable::Format4(t) => {
+                let a = t.glyph_array();
+                // the same std search as the real code (classification only)
+                match a.binary_search_by(|x| x.glyph_id().to_u32().cmp(&gid)) {
+                    Err(_) if a.iter().any(|x| x.glyph_id().to_u32() == gid) => ("f4.miss-present".into(), false),
+                    Err(_) => ("f4.miss".into(), false),
+                    Ok(i) => two(Some(a[i].sbit_offset() as u64), a.get(i + 1).map(|x| x.sbit_offset() as u64), 4),
+                }
+            }
+            IndexSubtable::Format5(t) => {
+                let a = t.glyph_array();
+                match a.binary_search_by(|x| x.get().to_u32().cmp(&gid)) {
+                    Err(_) if a.iter().any(|x| x.get().to_u32() == gid) => ("f5.miss-present".into(), false),
+                    Err(_) => ("f5.miss".into(), false),
+                    Ok(_) => (format!("f5.ok.rec{k}"), true),
+                }
+            }
+        };
+    }
+    ("exhausted".into(), false)
+}
+
+fn run_loc(ctx: &mut Ctx, od: &[u8], p: &SizeP, gids: &[u32]) {
+    let size = size_rec(p);
+    let req = format!("hb.loc {} {} {} {} {} {} {} {}", p.off, p.size, p.n, p.start, p.end, p.bd, hex(od), join(gids));
+    let mut tags: Vec<String> = vec![];
+    let mut bad: Vec<String> = vec![];
+    ask(ctx, req.clone(), || {
+        let fd = FontData::new(od);
+        let mut out = vec![];
+        for gid in gids {
+            let r = size.location(fd, GlyphId::new(*gid));
+            let (tag, ok) = classify_loc(&size, fd, *gid);
+            match &r {
+                Ok(l) => {
+                    let g = *gid;
+                    // model independent facts about an Ok location
+                    if !(p.start as u32 <= g && g <= p.end as u32) {
+                        bad.push(format!("location({g}) Ok outside the size's range"));
+                    }
+                    if l.bit_depth != p.bd || l.is_empty() != (l.data_size == 0) {
+                        bad.push(format!("location({g}): bit depth / is_empty"));
+                    }
+                    // every offset / size a font can produce stays far below usize::MAX
+                    if l.data_offset as u128 + l.data_size as u128 >= 1u128 << 49 {
+                        bad.push(format!("location({g}): offset {} + size {} beyond 2^49", l.data_offset, l.data_size));
+                    }
+                    if !ok {
+                        bad.push(format!("location({g}) Ok, classifier {tag}"));
+                    }
+                    tags.push(tag);
+                    out.push(loc_str(l));
+                }
+                Err(e) => {
+                    if ok {
+                        bad.push(format!("location({gid}) {e:?}, classifier {tag}"));
+                    }
+                    tags.push(tag);
+                    out.push(err_str(e));
+                }
+            }
+        }
+        join(&out)
+    });
+    for t in tags {
+        ctx.count(&format!("loc.{t}"));
+    }
+    ctx.oracle("loc.classifier-agrees", bad.is_empty(), || req.clone(), || bad.join("; "));
+}
+
+fn run_list(ctx: &mut Ctx, od: &[u8], p: &SizeP) {
+    let size = size_rec(p);
+    let req = format!("hb.list {} {} {} {}", p.off, p.size, p.n, hex(od));
+    let mut tag = String::new();
+    let mut inside = true;
+    ask(ctx, req.clone(), || match size.index_subtable_list(FontData::new(od)) {
+        Err(e) => {
+            tag = format!("list.{}", err_kind(&e));
+            err_str(&e)
+        }
+        Ok(l) => {
+            tag = "list.ok".into();
+            let recs = l.index_subtable_records();
+            // the list is the slice [off, off + size) of the data and holds its n records
+            inside = p.off as usize + p.size as usize <= od.len() && l.offset_data().len() == p.size as usize && recs.len() == p.n as usize && 8 * recs.len() <= p.size as usize;
+            let rs: Vec<String> = recs.iter().map(|r| format!("{},{},{}", r.first_glyph_index().to_u32(), r.last_glyph_index().to_u32(), r.index_subtable_offset().to_u32())).collect();
+            format!("ok:{}:{}", l.offset_data().len(), if rs.is_empty() { "-".to_string() } else { rs.join(" ") })
+        }
+    });
+    ctx.count(&tag);
+    ctx.oracle("list.inside-data", inside, || req.clone(), || "index_subtable_list Ok but the list / its records are not inside the data".into());
+}
+
+fn size_variants(p: &SizeP, len: usize) -> Vec<SizeP> {
+    let mut v = vec![];
+    let len = len as u32;
+    for off in [0, p.off.wrapping_sub(1), p.off + 1, len.saturating_sub(p.size), len.saturating_sub(p.size) + 1, len, len + 1, u32::MAX, u32::MAX - p.size, u32::MAX - p.size + 1] {
+        v.push(SizeP { off, ..*p });
+    }
+    for size in [0, 1, 8 * p.n - 1, 8 * p.n, 8 * p.n + 1, p.size - 1, p.size + 1, len - p.off, len - p.off + 1, u32::MAX, u32::MAX - p.off] {
+        v.push(SizeP { size, ..*p });
+    }
+    for n in [0, 1, p.n - 1, p.n + 1, p.size / 8, p.size / 8 + 1, 0x2000_0000, 0x2000_0001, u32::MAX] {
+        v.push(SizeP { n, ..*p });
+    }
+    for (start, end) in [(0, 0xFFFF), (p.end, p.start), (p.start + 1, p.end), (p.start, p.end.wrapping_sub(1)), (p.start, p.start), (p.end, p.end), (0, 0), (0xFFFF, 0xFFFF)] {
+        v.push(SizeP { start, end, ..*p });
+    }
+    v.retain(|q| q != p);
+    v.dedup();
+    v
+}
+
+// ------------------------------------------------------------------------------------------------
+// hb.sub
+
+/// [subtable]; returns (bytes, last, first)
+fn sub_case(rng: &mut Rng, fmt: u16) -> (B, u16, u16) {
+    let first = *rng.pick(&[0u16, 3, 7, 0xFFF0]);
+    let n = rng.below(5) as u16;
+    let last = first + n;
+    let mut b = B::new();
+    b.f16(fmt).f16(*rng.pick(&[1u16, 5, 17, 19])).f32(rng.below(64) as u32);
+    match fmt {
+        1 => {
+            for i in 0..n as u32 + 2 {
+                b.f32(i * 7);
+            }
+        }
+        3 => {
+            for i in 0..n + 2 {
+                b.f16(i * 7);
+            }
+        }
+        2 => {
+            b.f32(9).bytes(&rng.bytes(8));
+        }
+        4 => {
+            b.f32(n as u32);
+            for i in 0..=n {
+                b.f16(first + i).f16(i * 5);
+            }
+        }
+        5 => {
+            b.f32(9).bytes(&rng.bytes(8)).f32(n as u32);
+            for i in 0..n {
+                b.f16(first + i);
+            }
+        }
+        _ => {
+            b.bytes(&rng.bytes(12));
+        }
+    }
+    b.bytes(&rbytes(rng, 3));
+    (b, last, first)
+}
+
+fn run_sub(ctx: &mut Ctx, sd: &[u8], last: u16, first: u16) {
+    let req = format!("hb.sub {} {} {}", last, first, hex(sd));
+    let mut tag = String::new();
+    let mut sized = true;
+    ask(ctx, req.clone(), || {
+        let r = IndexSubtable::read_with_args(FontData::new(sd), &(GlyphId16::new(last), GlyphId16::new(first)));
+        let f = if sd.len() >= 2 { u16::from_be_bytes([sd[0], sd[1]]) } else { 0 };
+        match &r {
+            Err(e) => {
+                let why = match (e, f) {
+                    (ReadError::OutOfBounds, _) if sd.len() < 2 => "no-format",
+                    (ReadError::OutOfBounds, 4) if sd.len() < 12 => "no-count",
+                    (ReadError::OutOfBounds, 5) if sd.len() < 24 => "no-count",
+                    (ReadError::OutOfBounds, _) => "array-beyond",
+                    _ => err_kind(e),
+                };
+                tag = format!("sub.f{}.{}", if (1..=5).contains(&f) { f } else { 0 }, why);
+                err_str(e)
+            }
+            Ok(st) => {
+                tag = format!("sub.f{f}.ok");
+                let (v, count, need) = match st {
+                    IndexSubtable::Format1(t) => (1, t.sbit_offsets().len(), 8 + 4 * t.sbit_offsets().len()),
+                    IndexSubtable::Format2(t) => (2, t.big_metrics().len(), 20),
+                    IndexSubtable::Format3(t) => (3, t.sbit_offsets().len(), 8 + 2 * t.sbit_offsets().len()),
+                    IndexSubtable::Format4(t) => (4, t.glyph_array().len(), 12 + 4 * t.glyph_array().len()),
+                    IndexSubtable::Format5(t) => (5, t.glyph_array().len(), 24 + 2 * t.glyph_array().len()),
+                };
+                // the arrays the reader sized lie inside the data
+                sized = need <= sd.len() && st.min_byte_range().end == need && v == f;
+                format!("ok:{}:{}:{}:{}:{}:{}:{}", v, count, st.index_format(), st.image_format(), st.image_data_offset(), st.min_byte_range().end, st.offset_data().len())
+            }
+        }
+    });
+    ctx.count(&tag);
+    ctx.oracle("sub.arrays-inside-data", sized, || req.clone(), || "IndexSubtable read Ok but its array is not inside the data".into());
+}
+
+// ------------------------------------------------------------------------------------------------
+// hb.data
+
+fn dims(rng: &mut Rng) -> (u8, u8) {
+    match rng.below(8) {
+        0 => (0, rng.below(4) as u8),
+        1 => (rng.below(4) as u8, 0),
+        2 => (1, 1),
+        _ => (1 + rng.below(7) as u8, 1 + rng.below(9) as u8),
+    }
+}
+
+/// image data in EBDT / CBDT format `fmt` (for formats 5 and 19 the metrics come from `big`)
+fn image(rng: &mut Rng, fmt: u16, bd: u8, big: (u8, u8), payload: usize) -> B {
+    let mut b = B::new();
+    let (h, w) = if fmt == 5 || fmt == 19 { big } else { dims(rng) };
+    let bits = (w as usize * bd as usize * h as usize).div_ceil(8);
+    let rows = (w as usize * bd as usize).div_ceil(8) * h as usize;
+    let small = |b: &mut B, rng: &mut Rng| {
+        b.f8(h).f8(w).bytes(&rng.bytes(3));
+    };
+    let bigm = |b: &mut B, rng: &mut Rng| {
+        b.f8(h).f8(w).bytes(&rng.bytes(6));
+    };
+    match fmt {
+        1 => {
+            small(&mut b, rng);
+            b.bytes(&rng.bytes(rows));
+        }
+        2 => {
+            small(&mut b, rng);
+            b.bytes(&rng.bytes(bits));
+        }
+        5 => {
+            b.bytes(&rng.bytes(bits));
+        }
+        6 => {
+            bigm(&mut b, rng);
+            b.bytes(&rng.bytes(rows));
+        }
+        7 => {
+            bigm(&mut b, rng);
+            b.bytes(&rng.bytes(bits));
+        }
+        8 => {
+            small(&mut b, rng);
+            let n = rng.below(4) as usize;
+            b.u8(0).f16(n as u16).bytes(&rng.bytes(4 * n));
+        }
+        9 => {
+            bigm(&mut b, rng);
+            let n = rng.below(4) as usize;
+            b.f16(n as u16).bytes(&rng.bytes(4 * n));
+        }
+        17 => {
+            small(&mut b, rng);
+            b.f32(payload as u32).bytes(&rng.bytes(payload));
+        }
+        18 => {
+            bigm(&mut b, rng);
+            b.f32(payload as u32).bytes(&rng.bytes(payload));
+        }
+        19 => {
+            b.f32(payload as u32).bytes(&rng.bytes(payload));
+        }
+        _ => {
+            b.bytes(&rng.bytes(12));
+        }
+    }
+    b
+}
+
+#[derive(Clone)]
+struct LocP {
+    color: bool,
+    fmt: u16,
+    off: usize,
+    size: usize,
+    bd: u8,
+    metrics: Option<[u8; 8]>,
+}
+
+fn header_len(fmt: u16) -> usize {
+    match fmt {
+        1 | 2 => 5,
+        6 | 7 => 8,
+        8 => 8,
+        9 => 10,
+        17 => 9,
+        18 => 12,
+        19 => 4,
+        _ => 0,
+    }
+}
+
+fn run_data(ctx: &mut Ctx, dat: &[u8], l: &LocP) {
+    let mh = match &l.metrics {
+        Some(m) => hex(m),
+        None => "-".into(),
+    };
+    let req = format!("hb.data {} {} {} {} {} {} {}", l.color as u8, l.fmt, l.off, l.size, l.bd, mh, hex(dat));
+    let loc = BitmapLocation { format: l.fmt, data_offset: l.off, data_size: l.size, bit_depth: l.bd, metrics: l.metrics.as_ref().map(big_metrics) };
+    // the table itself must read (4 bytes of version), otherwise `data` is not reachable
+    let readable = if l.color { Cbdt::read(FontData::new(dat)).is_ok() } else { Ebdt::read(FontData::new(dat)).is_ok() };
+    if !readable {
+        ctx.count("data.table-unreadable");
+        return;
+    }
+    let mut tag = String::new();
+    let mut inside: Option<String> = None;
+    ask(ctx, req.clone(), || {
+        let r: Result<BitmapData, ReadError> = if l.color { Cbdt::read(FontData::new(dat)).unwrap().data(&loc) } else { Ebdt::read(FontData::new(dat)).unwrap().data(&loc) };
+        let known = matches!(l.fmt, 1 | 2 | 5 | 6 | 7 | 8 | 9) || (matches!(l.fmt, 17 | 18 | 19) && l.color);
+        let fk = if known { format!("f{}", l.fmt) } else if matches!(l.fmt, 17 | 18 | 19) { "mono-png".to_string() } else { "other".to_string() };
+        match &r {
+            Err(e) => {
+                let why = match e {
+                    ReadError::OutOfBounds => match l.off.checked_add(l.size) {
+                        None => "add-overflow",
+                        Some(end) if end > dat.len() => "slice",
+                        _ if l.size < header_len(l.fmt) => "header",
+                        _ => "content",
+                    },
+                    _ => err_kind(e),
+                };
+                tag = format!("data.{fk}.{why}");
+                err_str(e)
+            }
+            Ok(d) => {
+                tag = format!("data.{fk}.ok");
+                let (s, mb) = match &d.metrics {
+                    BitmapMetrics::Small(m) => ("S", vec![m.height(), m.width(), m.bearing_x() as u8, m.bearing_y() as u8, m.advance()]),
+                    BitmapMetrics::Big(m) => ("B", big_bytes(m).to_vec()),
+                };
+                let base = dat.as_ptr() as usize;
+                let (kind, count, start, elem) = match &d.content {
+                    BitmapContent::Data(f, bytes) => (
+                        match f {
+                            BitmapDataFormat::BitAligned => "bit",
+                            BitmapDataFormat::ByteAligned => "byte",
+                            BitmapDataFormat::Png => "png",
+                        },
+                        bytes.len(),
+                        (bytes.as_ptr() as usize).wrapping_sub(base),
+                        1,
+                    ),
+                    BitmapContent::Composite(c) => ("comp", c.len(), (c.as_ptr() as usize).wrapping_sub(base), 4),
+                };
+                if count > 0 {
+                    // the content is inside the located image, which is inside the table
+                    let ok = l.off <= start && start + count * elem <= l.off + l.size && l.off + l.size <= dat.len();
+                    if !ok {
+                        inside = Some(format!("content {start}..{} outside image {}..{} / data {}", start + count * elem, l.off, l.off + l.size, dat.len()));
+                    }
+                } else {
+                    tag.push_str("-empty");
+                }
+                format!("ok:{}:{}:{}:{}:{}", s, hex(&mb), kind, count, if count == 0 { "-".to_string() } else { start.to_string() })
+            }
+        }
+    });
+    ctx.count(&tag);
+    ctx.oracle("data.content-inside-image", inside.is_none(), || req.clone(), || inside.clone().unwrap_or_default());
+}
+
+fn data_round(ctx: &mut Ctx, fmt: u16, color: bool) {
+    let bd = *ctx.rng.pick(&[1u8, 1, 2, 4, 8, 32, 3]);
+    let big = dims(&mut ctx.rng);
+    let lead = ctx.rng.below(4) as usize;
+    let payload = ctx.rng.below(7) as usize;
+    let img = image(&mut ctx.rng, fmt, bd, big, payload);
+    let mut b = B::new();
+    b.u16(if color { 3 } else { 2 }).u16(0).bytes(&ctx.rng.bytes(lead));
+    let off = b.len();
+    b.append(&img);
+    let size = img.len();
+    b.bytes(&rbytes(&mut ctx.rng, 4));
+    let mut mb = [0u8; 8];
+    mb.copy_from_slice(&ctx.rng.bytes(8));
+    mb[0] = big.0;
+    mb[1] = big.1;
+    let l = LocP { color, fmt, off, size, bd, metrics: Some(mb) };
+    let flips = if ctx.thorough { 24 } else { 6 };
+    for v in variants(&mut ctx.rng, &b, flips) {
+        run_data(ctx, &v, &l);
+        if v.len() < b.len() && v.len() >= off {
+            // truncated: the image is what is left
+            run_data(ctx, &v, &LocP { size: v.len() - off, ..l.clone() });
+        }
+    }
+    // the location's own fields
+    let n = b.len();
+    let dat = &b.v;
+    let mut sizes = vec![0, 1, size.saturating_sub(1), size + 1, n - off, n - off + 1, header_len(fmt), header_len(fmt).saturating_sub(1), header_len(fmt) + 1, u32::MAX as usize, usize::MAX, usize::MAX - off, usize::MAX - off + 1];
+    sizes.sort();
+    sizes.dedup();
+    for s in sizes {
+        run_data(ctx, dat, &LocP { size: s, ..l.clone() });
+    }
+    for o in [0, off - 1, off + 1, n - size, n - size + 1, n, n + 1, u32::MAX as usize, usize::MAX, usize::MAX - size, (usize::MAX - size).wrapping_add(1)] {
+        run_data(ctx, dat, &LocP { off: o, ..l.clone() });
+    }
+    for d in [0u8, 1, 2, 3, 4, 7, 8, 9, 16, 32, 255] {
+        run_data(ctx, dat, &LocP { bd: d, ..l.clone() });
+    }
+    run_data(ctx, dat, &LocP { metrics: None, ..l.clone() });
+    run_data(ctx, dat, &LocP { color: !color, ..l.clone() });
+    for f in [0u16, 1, 2, 3, 4, 5, 6, 7, 8, 9, 10, 16, 17, 18, 19, 20, 0xFFFF] {
+        run_data(ctx, dat, &LocP { fmt: f, ..l.clone() });
+        run_data(ctx, dat, &LocP { fmt: f, metrics: None, ..l.clone() });
+    }
+}
+
+/// u8 maxima of width / height / bit depth: exactly enough data, one byte less, one more
+fn data_maxima(ctx: &mut Ctx) {
+    for fmt in [1u16, 2, 5, 6, 7] {
+        for (h, w, bd) in [(255u8, 255u8, 1u8), (255, 255, 255), (255, 1, 255), (1, 255, 255), (255, 255, 0), (0, 255, 255), (3, 3, 3), (1, 1, 1), (1, 9, 1), (7, 3, 1), (2, 5, 3), (255, 3, 3)] {
+            let bits = (w as usize * bd as usize * h as usize).div_ceil(8);
+            let rows = (w as usize * bd as usize).div_ceil(8) * h as usize;
+            let need = if matches!(fmt, 1 | 6) { rows } else { bits };
+            let head = header_len(fmt);
+            for avail in [need, need.saturating_sub(1), need + 1] {
+                // the full 255 x 255 x 255 image (2 MB) is only asked for with too little data
+                let avail = if avail > 9000 { 64 } else { avail };
+                let mut v = vec![0u8, 3, 0, 0];
+                v.extend_from_slice(&[h, w, 0, 0, 0, 0, 0, 0][..head]);
+                v.resize(v.len() + avail, 0x55);
+                let l = LocP { color: true, fmt, off: 4, size: head + avail, bd, metrics: Some([h, w, 0, 0, 0, 0, 0, 0]) };
+                run_data(ctx, &v, &l);
+            }
+        }
+    }
+    ctx.count("data.maxima");
+}
+
+// ------------------------------------------------------------------------------------------------
+// hb.sbix
+
+/// one strike with `ng` glyphs
+fn strike_case(rng: &mut Rng, style: u64) -> (B, u16) {
+    let ng = match style % 4 {
+        0 => 0,
+        1 => 1,
+        _ => 1 + rng.below(6) as u16,
+    };
+    let mut st = B::new();
+    st.u16(20).u16(72);
+    let table = st.len();
+    for _ in 0..=ng {
+        st.f32(0);
+    }
+    for g in 0..ng as usize {
+        let start = st.len();
+        st.set32(table + 4 * g, start as u32);
+        match rng.below(6) {
+            0 => {}
+            1 => {
+                // shorter than the 8 byte header
+                st.bytes(&rbytes(rng, 8));
+            }
+            _ => {
+                st.i16(rng.range(-9, 9) as i16).i16(rng.range(-9, 9) as i16).tag(b"png ").bytes(&rbytes(rng, 6));
+            }
+        }
+    }
+    let end = st.len();
+    st.set32(table + 4 * ng as usize, end as u32);
+    (st, ng)
+}
+
+fn run_sbix(ctx: &mut Ctx, sd: &[u8], ng: u16, gids: &[u32]) {
+    let req = format!("hb.sbix {} {} {}", ng, hex(sd), join(gids));
+    let mut tags: Vec<String> = vec![];
+    let mut bad: Vec<String> = vec![];
+    ask(ctx, req.clone(), || match Strike::read(FontData::new(sd), ng) {
+        Err(e) => {
+            tags.push("sbix.strike-err".into());
+            err_str(&e)
+        }
+        Ok(st) => {
+            let offs = st.glyph_data_offsets();
+            if offs.len() != ng as usize + 1 || 4 + 4 * offs.len() > sd.len() {
+                bad.push(format!("{} offsets for {ng} glyphs in {} bytes", offs.len(), sd.len()));
+            }
+            let mut out = vec![];
+            for gid in gids {
+                let r = st.glyph_data(GlyphId::new(*gid));
+                let (a, b) = (offs.get(*gid as usize).map(|x| x.get() as usize), offs.get(*gid as usize + 1).map(|x| x.get() as usize));
+                tags.push(
+                    match (&r, a, b) {
+                        (Ok(None), _, _) => "sbix.empty",
+                        (Ok(Some(_)), _, _) => "sbix.ok",
+                        (Err(_), None, _) => "sbix.get0-none",
+                        (Err(_), _, None) => "sbix.get1-none",
+                        (Err(_), Some(a), Some(b)) if a > b => "sbix.inverted",
+                        (Err(_), Some(_), Some(b)) if b > sd.len() => "sbix.beyond",
+                        _ => "sbix.short-header",
+                    }
+                    .into(),
+                );
+                out.push(match &r {
+                    Err(e) => err_str(e),
+                    Ok(None) => "none".into(),
+                    Ok(Some(g)) => {
+                        let s = (g.offset_data().as_bytes().as_ptr() as usize).wrapping_sub(sd.as_ptr() as usize);
+                        let e = s + g.offset_data().len();
+                        // start < end <= len, a whole header
+                        if !(s < e && e <= sd.len() && e - s >= 8 && Some(s) == a && Some(e) == b) {
+                            bad.push(format!("glyph_data({gid}) = {s}..{e} of {} (offsets {a:?} {b:?})", sd.len()));
+                        }
+                        format!("ok:{}:{}:{}:{}:{}:{}", s, e, g.origin_offset_x() as u16, g.origin_offset_y() as u16, u32::from_be_bytes(g.graphic_type().to_be_bytes()), g.data().len())
+                    }
+                });
+            }
+            join(&out)
+        }
+    });
+    for t in tags {
+        ctx.count(&t);
+    }
+    ctx.oracle("sbix.range-inside-strike", bad.is_empty(), || req.clone(), || bad.join("; "));
+}
+
+pub fn run(ctx: &mut Ctx) {
+    let t = ctx.thorough;
+    let flips = if t { 40 } else { 8 };
+    // --- BitmapSize::location / index_subtable_list
+    let rounds = if t { 120 } else { 20 };
+    for round in 0..rounds {
+        let c = loc_case(&mut ctx.rng, round);
+        let gids = gid_edges(&c.gids);
+        let p = c.p;
+        ctx.count(&format!("loc.bases.records{}", p.n));
+        for v in variants(&mut ctx.rng, &c.od, flips) {
+            run_loc(ctx, &v, &p, &gids);
+            if v.len() < c.od.len() && v.len() >= p.off as usize {
+                // truncated data with a list size that still fits: the inner readers meet the end of the data
+                let q = SizeP { size: (v.len() - p.off as usize) as u32, ..p };
+                run_loc(ctx, &v, &q, &gids);
+                if round % 4 == 0 {
+                    run_list(ctx, &v, &q);
+                }
+            }
+            if round % 4 == 0 {
+                run_list(ctx, &v, &p);
+            }
+        }
+        for q in size_variants(&p, c.od.len()) {
+            let mut g2 = gids.clone();
+            g2.extend([q.start as u32, q.end as u32, q.start as u32 + 1, q.end as u32 + 1]);
+            g2.sort();
+            g2.dedup();
+            run_loc(ctx, &c.od.v, &q, &g2);
+            run_list(ctx, &c.od.v, &q);
+        }
+    }
+    // --- IndexSubtable::read_with_args
+    let rounds = if t { 18 } else { 3 };
+    for _ in 0..rounds {
+        for fmt in [1u16, 2, 3, 4, 5, 0, 6] {
+            let (b, last, first) = sub_case(&mut ctx.rng, fmt);
+            for v in variants(&mut ctx.rng, &b, flips) {
+                run_sub(ctx, &v, last, first);
+            }
+            for (l, f) in [(first, last), (0xFFFF, 0), (0, 0xFFFF), (0, 0), (last + 1, first), (last.wrapping_sub(1), first), (last, first + 1)] {
+                run_sub(ctx, &b.v, l, f);
+            }
+        }
+    }
+    // --- bitmap_data
+    let rounds = if t { 6 } else { 1 };
+    for _ in 0..rounds {
+        for fmt in [1u16, 2, 5, 6, 7, 8, 9, 17, 18, 19, 3] {
+            for color in [true, false] {
+                data_round(ctx, fmt, color);
+            }
+        }
+    }
+    data_maxima(ctx);
+    // --- sbix
+    let rounds = if t { 48 } else { 8 };
+    for round in 0..rounds {
+        let (b, ng) = strike_case(&mut ctx.rng, round as u64);
+        let gids = gid_edges(&[ng as u32, ng as u32 + 1, 3]);
+        for v in variants(&mut ctx.rng, &b, flips) {
+            run_sbix(ctx, &v, ng, &gids);
+        }
+        for n2 in [0u16, 1, ng.wrapping_sub(1), ng + 1, 0x3FFF, 0xFFFF] {
+            run_sbix(ctx, &b.v, n2, &gids);
+        }
+    }
+}
